@@ -184,7 +184,7 @@ class C13(Prop):
                 k += 1
                 if want(k):
                     yield k, {'src': ''.join(tup), 'lines_only': True}
-        n = 12000 if tier == 'quick' else 300000
+        n = 12000 if tier == 'quick' else 180000
         yield from common.doc_cases(seed, n, want, 'c13',
                                     lambda j: common.cfg_general(j, tier), k0=k)
         # (iii) the same kind of documents with blanks / one line break before
@@ -192,7 +192,7 @@ class C13(Prop):
         # printed tree is shorter than the source - offsets must still refer
         # to the source
         k += n
-        m = 2500 if tier == 'quick' else 60000
+        m = 2500 if tier == 'quick' else 35000
         for j in range(m):
             k += 1
             if not want(k):
